@@ -215,7 +215,11 @@ func (g *CallGraph) RootsReaching(target *ssa.Function) []*ssa.Function {
 			isRoot = true
 		}
 		if isRoot {
+			// an API entry point or goroutine body: whoever calls it enters through it
 			roots = append(roots, f)
+			if f != target {
+				return
+			}
 		}
 		for _, cs := range g.In[f] {
 			if cs.Kind == "go" {
